@@ -4,7 +4,7 @@
    sel >= 100: laws on the implementation's results.
    A history in which Go's map iteration order can influence the result
    (a member claimed by two stored HyperNodes at some point, or an update that
-   frees two members at once) is answered by [-7] on both sides: such cases
+   frees two members at once, or a node event whose handler fails part-way) is answered by [-7] on both sides: such cases
    are checked by the laws only. *)
 From Coq Require Import ZArith List Bool.
 From V Require Import Base.Codec C14.Model C14.Laws C14.LawsPlace C14.Recover.
@@ -66,7 +66,11 @@ Fixpoint run_obs (es : env * st) (evs : list event) (i : Z) (amb : bool) (out : 
   match evs with
   | [] => (amb, es, out)
   | ev :: r =>
-      let amb1 := amb || frees_many (snd es) ev in
+      let terr := match ev with
+                  | ENodeAdd n => snd (trigger (mkEnv (pins n (e_nodes (fst es))) (e_sel (fst es))) (snd es) n)
+                  | ENodeDel n => snd (trigger (mkEnv (pdel n (e_nodes (fst es))) (e_sel (fst es))) (snd es) n)
+                  | _ => false end in
+      let amb1 := amb || frees_many (snd es) ev || terr in
       let es' := step es ev in
       let amb2 := amb1 || doubly_claimed (s_hn (snd es')) in
       run_obs es' r (i + 1) amb2 (out ++ tag i ++ eView (snd es'))
